@@ -212,6 +212,7 @@ namespace pika::concurrency::detail {
             // Get the right node of the leftmost pointer held by lrs and its ABA
             // tag (tagged_ptr).
             node_pointer prev = lrs.get_left_ptr()->right.load(std::memory_order_acquire);
+            PIKA_VERIF_POINT(92, this);
 
             if (anchor_ != lrs) return;
 
@@ -231,6 +232,7 @@ namespace pika::concurrency::detail {
                     return;
             }
             // Try to update the anchor, modifying the status and ABA tag.
+            PIKA_VERIF_POINT(93, this);
             anchor_.cas(lrs,
                 anchor_pair(
                     lrs.get_left_ptr(), lrs.get_right_ptr(), stable, lrs.get_right_tag() + 1));
@@ -241,6 +243,7 @@ namespace pika::concurrency::detail {
             // Get the left node of the rightmost pointer held by lrs and its ABA
             // tag (tagged_ptr).
             node_pointer prev = lrs.get_right_ptr()->left.load(std::memory_order_acquire);
+            PIKA_VERIF_POINT(92, this);
 
             if (anchor_ != lrs) return;
 
@@ -260,6 +263,7 @@ namespace pika::concurrency::detail {
                     return;
             }
             // Try to update the anchor, modifying the status and ABA tag.
+            PIKA_VERIF_POINT(93, this);
             anchor_.cas(lrs,
                 anchor_pair(
                     lrs.get_left_ptr(), lrs.get_right_ptr(), stable, lrs.get_right_tag() + 1));
@@ -323,6 +327,7 @@ namespace pika::concurrency::detail {
             {
                 // Load the anchor.
                 anchor_pair lrs = anchor_.lrs(std::memory_order_relaxed);
+                PIKA_VERIF_POINT(90, this);
 
                 // Check if the deque is empty.
                 // FIXME: Should we check both pointers here?
@@ -350,6 +355,7 @@ namespace pika::concurrency::detail {
 
                     if (anchor_.cas(lrs, new_anchor))
                     {
+                        PIKA_VERIF_POINT(91, this);
                         stabilize_left(new_anchor);
                         return true;
                     }
@@ -378,6 +384,7 @@ namespace pika::concurrency::detail {
             {
                 // Load the anchor.
                 anchor_pair lrs = anchor_.lrs(std::memory_order_relaxed);
+                PIKA_VERIF_POINT(90, this);
 
                 // Check if the deque is empty.
                 // FIXME: Should we check both pointers here?
@@ -405,6 +412,7 @@ namespace pika::concurrency::detail {
 
                     if (anchor_.cas(lrs, new_anchor))
                     {
+                        PIKA_VERIF_POINT(91, this);
                         stabilize_right(new_anchor);
                         return true;
                     }
@@ -426,6 +434,7 @@ namespace pika::concurrency::detail {
             {
                 // Load the anchor.
                 anchor_pair lrs = anchor_.lrs(std::memory_order_relaxed);
+                PIKA_VERIF_POINT(90, this);
 
                 // Check if the deque is empty.
                 // FIXME: Should we check both pointers here?
@@ -451,6 +460,7 @@ namespace pika::concurrency::detail {
                 {
                     // Make sure the anchor hasn't changed since we loaded it.
                     if (anchor_ != lrs) continue;
+                    PIKA_VERIF_POINT(94, this);
 
                     // Get the leftmost nodes' right node.
                     node_pointer prev = lrs.get_left_ptr()->right.load(std::memory_order_acquire);
@@ -486,6 +496,7 @@ namespace pika::concurrency::detail {
             {
                 // Load the anchor.
                 anchor_pair lrs = anchor_.lrs(std::memory_order_relaxed);
+                PIKA_VERIF_POINT(90, this);
 
                 // Check if the deque is empty.
                 // FIXME: Should we check both pointers here?
@@ -511,6 +522,7 @@ namespace pika::concurrency::detail {
                 {
                     // Make sure the anchor hasn't changed since we loaded it.
                     if (anchor_ != lrs) continue;
+                    PIKA_VERIF_POINT(94, this);
 
                     // Get the rightmost nodes' left node.
                     node_pointer prev = lrs.get_right_ptr()->left.load(std::memory_order_acquire);
